@@ -572,6 +572,16 @@ def field_values(b, adt, field):
         adts = adt if isinstance(adt, tuple) else (adt,)
         if t["dest"]["p"] and t["dest"]["p"][-1].get("name") == field and t["dest"]["p"][-1].get("owner") in adts:
             out.append((bb, None, t))
+        # `x.field.clone_from(&v)` stores a clone of v
+        if (C.callee_name(t) or "").endswith("::clone_from") and len(t["args"]) == 2:
+            pl = C.op_place(t["args"][0])
+            tgt = None
+            if pl is not None and not pl["p"]:
+                ds = b.defs().get(pl["l"], [])
+                if len(ds) == 1 and ds[0][0] == "assign" and ds[0][3]["rv"]["k"] == "ref":
+                    tgt = ds[0][3]["rv"]["pl"]
+            if tgt and tgt["p"] and tgt["p"][-1].get("name") == field and tgt["p"][-1].get("owner") in adts:
+                out.append((bb, t["args"][1], t))
     return out
 
 
